@@ -12,6 +12,7 @@ from sa.report import Context, Rule
 from sa.rules import common
 from sa.rules.common import FSH, MAIN
 from sa.util import (
+    all_paths_pass,
     catching_handler,
     describe_path,
     enclosing_tries,
@@ -449,6 +450,34 @@ def r15g(ctx: Context) -> None:
                 key = func_key(func, node)
                 if ext in ("os.replace", "os.rename"):
                     rule.ok(key, "atomic rename onto the user's file")
+                    # the file that takes the user's place was created here as a temporary (mode 0600): it must be
+                    # given the user's file's mode before it is renamed over it, on every path
+                    staged = node.args[0]
+                    fresh = isinstance(staged, ast.Name) and any(
+                        isinstance(c, ast.Call) and (dotted(c.func) or "").endswith(("NamedTemporaryFile", "mkstemp")) for c in walk_local(func.node)
+                    )
+                    if fresh:
+                        mkey = key + " [mode kept]"
+                        cfg = CFG(func.node, raising=lambda n: False)
+                        keepers = set()
+                        sink_node = None
+                        for cnode in cfg.nodes:
+                            if cnode.ast_node is None or cnode.kind != "stmt":
+                                continue
+                            for call in [c for c in ast.walk(cnode.ast_node) if isinstance(c, ast.Call)]:
+                                name = dotted(call.func) or ""
+                                if name in ("shutil.copymode", "shutil.copystat") and len(call.args) >= 2 and norm(call.args[1]) == norm(staged):
+                                    keepers.add(cnode.nid)
+                                if name == "os.chmod" and call.args and norm(call.args[0]) == norm(staged):
+                                    keepers.add(cnode.nid)
+                                if call is node:
+                                    sink_node = cnode.nid
+                        if sink_node is None:
+                            raise AnalysisError(f"{func.short}: the rename onto the user's file was not found in the flow graph")
+                        if all_paths_pass(cfg, cfg.entry, keepers, ends={sink_node}) is None:
+                            rule.ok(mkey, "the staged copy takes the mode of the user's file before the rename")
+                        else:
+                            rule.fail(mkey, site.where, f"'{norm(staged)}' is a freshly created temporary file (mode 0600) and is renamed over the user's file without having been given that file's mode on every path: after 'fix' the document has lost its permission bits (it is no longer readable by group / others, no longer executable)")
                 else:
                     rule.fail(key, site.where, f"{ext} writes the user's file '{node.args[1].id}' in place: a run cut short during the copy leaves it truncated or half-written")
             if ext in ("os.remove", "os.unlink", "os.truncate", "os.rmdir", "shutil.rmtree") and node.args and isinstance(node.args[0], ast.Name) and node.args[0].id in params:
